@@ -30,7 +30,7 @@ MANIFEST = {
  "design_ref": "DESIGN.md §3 C12-C14",
 }
 PROP = "C12"
-X = ["CHK_LOOKUP_AFTER"]
+X = ["CHK_LOOKUP_BEFORE", "CHK_LOOKUP_AFTER"]
 
 
 def step_queries(h, types, light=False):
